@@ -647,7 +647,7 @@ struct TlsEnv {
     dials: Arc<AtomicUsize>,
 }
 
-static TLS_ENV: OnceLock<TlsEnv> = OnceLock::new();
+static TLS_ENVS: OnceLock<std::sync::Mutex<std::collections::HashMap<String, &'static TlsEnv>>> = OnceLock::new();
 
 fn free_port() -> u16 {
     let l = std::net::TcpListener::bind("127.0.0.1:0").unwrap();
@@ -655,7 +655,24 @@ fn free_port() -> u16 {
 }
 
 fn tls_env() -> &'static TlsEnv {
-    TLS_ENV.get_or_init(|| {
+    tls_env_for(PASSWORD)
+}
+
+/// one real Server::listen per configured password (C06: passwords with surrounding whitespace etc.)
+fn tls_env_for(password: &str) -> &'static TlsEnv {
+    let map = TLS_ENVS.get_or_init(|| std::sync::Mutex::new(std::collections::HashMap::new()));
+    let mut g = map.lock().unwrap();
+    if let Some(e) = g.get(password) {
+        return e;
+    }
+    let e: &'static TlsEnv = Box::leak(Box::new(make_tls_env(password)));
+    g.insert(password.to_string(), e);
+    e
+}
+
+fn make_tls_env(password: &str) -> TlsEnv {
+    let password = password.to_string();
+    {
         let rt = tokio::runtime::Builder::new_multi_thread()
             .worker_threads(2)
             .enable_all()
@@ -681,7 +698,7 @@ fn tls_env() -> &'static TlsEnv {
             let cfg = anytls_rs::util::tls::create_server_config().unwrap();
             let acceptor = Arc::new(tokio_rustls::TlsAcceptor::from(cfg));
             let server = Arc::new(anytls_rs::server::Server::new(
-                PASSWORD,
+                &password,
                 acceptor,
                 PaddingFactory::default(),
                 None,
@@ -708,7 +725,7 @@ fn tls_env() -> &'static TlsEnv {
             target_addr,
             dials,
         }
-    })
+    }
 }
 
 fn enc_frame(f: Frame, out: &mut BytesMut) {
@@ -737,7 +754,11 @@ fn authtls(args: &[&str]) -> String {
         None
     };
     let bare = args.len() > 4 && (args[4] == "h" || slow.is_some());
-    let env = tls_env();
+    // optional last argument pw=<hex>: the password the server is configured with (default PASSWORD)
+    let env = match args.last().and_then(|a| a.strip_prefix("pw=")) {
+        Some(h) => tls_env_for(&String::from_utf8(unhex(h)).unwrap()),
+        None => tls_env(),
+    };
     env.rt.block_on(async move {
         let mut wire = BytesMut::new();
         match slow {
@@ -1107,6 +1128,7 @@ pub fn dispatch(drv: &str, args: &[&str]) -> Option<String> {
         "socksreq" => Some(socksreq(args)),
         "socks" => Some(socks(args)),
         "authtls" => Some(authtls(args)),
+        "hashpw" => Some(hex(&anytls_rs::hash_password(&String::from_utf8(unhex(args[0])).unwrap()))),
         "dial" => Some(dial(args)),
         "udpe2e" => Some(udpe2e(args)),
         _ => None,
